@@ -21,8 +21,109 @@ import (
 	"strings"
 
 	"0chain.net/chaincore/block"
+	"0chain.net/chaincore/round"
+	"verifharness/sc"
 	"verifharness/vh"
 )
+
+// ---------- getters must hand out copies (deterministic, no race detector) ----------
+
+type getterFail struct{ typ, field, method, what string }
+
+func nblock(hash string, rank int) *block.Block {
+	b := &block.Block{}
+	b.Hash = hash
+	b.RoundRank = rank
+	b.Round = 7
+	return b
+}
+
+// getterSnapshots: a value returned by a getter of Round / Block must not change when a writer
+// later stores into the object (same-rank re-proposal, UpdateNotarizedBlock, same-hash proposal,
+// new share / ticket / extension) nor may mutating the returned value change the object.
+func getterSnapshots() (fails []getterFail) {
+	defer func() {
+		if r := recover(); r != nil {
+			fails = append(fails, getterFail{"Round", "?", "?", fmt.Sprint("panic: ", r)})
+		}
+	}()
+	same := func(a, b []*block.Block) bool {
+		if len(a) != len(b) {
+			return false
+		}
+		for i := range a {
+			if a[i] != b[i] {
+				return false
+			}
+		}
+		return true
+	}
+	for n := 0; n <= 2; n++ {
+		r := round.NewRound(7)
+		for i := 0; i < n; i++ {
+			r.AddNotarizedBlock(nblock(fmt.Sprintf("h%d", i), i))
+		}
+		snap := r.GetNotarizedBlocks()
+		want := append([]*block.Block{}, snap...)
+		r.AddNotarizedBlock(nblock("other", 0)) // same rank as slot 0, different hash: replaces in place
+		if n > 0 {
+			r.UpdateNotarizedBlock(nblock(want[0].Hash, want[0].RoundRank))
+		}
+		if !same(snap, want) {
+			fails = append(fails, getterFail{"Round", "notarizedBlocks", "GetNotarizedBlocks", fmt.Sprintf("round with %d notarized block(s): the slice returned earlier changed after AddNotarizedBlock(same rank, other hash) / UpdateNotarizedBlock", n)})
+		}
+		if n > 0 {
+			snap2 := r.GetNotarizedBlocks()
+			keep := append([]*block.Block{}, snap2...)
+			snap2[0] = nblock("scribble", 9)
+			if !same(r.GetNotarizedBlocks(), keep) {
+				fails = append(fails, getterFail{"Round", "notarizedBlocks", "GetNotarizedBlocks", "writing into the returned slice changed the round"})
+			}
+		}
+		// proposed blocks
+		p := round.NewRound(8)
+		for i := 0; i < n; i++ {
+			p.AddProposedBlock(nblock(fmt.Sprintf("p%d", i), i))
+		}
+		ps := p.GetProposedBlocks()
+		pw := append([]*block.Block{}, ps...)
+		if n > 0 {
+			p.AddProposedBlock(nblock(pw[0].Hash, pw[0].RoundRank)) // same hash: replaces in place
+			p.UpdateNotarizedBlock(nblock(pw[n-1].Hash, 0))
+		}
+		if !same(ps, pw) {
+			fails = append(fails, getterFail{"Round", "proposedBlocks", "GetProposedBlocks", fmt.Sprintf("round with %d proposed block(s): the slice returned earlier changed after AddProposedBlock(same hash) / UpdateNotarizedBlock", n)})
+		}
+	}
+	// maps and ticket lists
+	r := round.NewRound(9)
+	m := r.GetVRFShares()
+	m["x"] = nil
+	if len(r.GetVRFShares()) != 0 {
+		fails = append(fails, getterFail{"Round", "shares", "GetVRFShares", "writing into the returned map changed the round"})
+	}
+	b := &block.Block{}
+	b.AddVerificationTicket(&block.VerificationTicket{VerifierID: "v1"})
+	b.SetPrevBlockVerificationTickets([]*block.VerificationTicket{{VerifierID: "p1"}})
+	b.AddUniqueBlockExtension(nblock("e", 0))
+	vt := b.GetVerificationTickets()
+	vt[0].VerifierID = "changed"
+	vt[0] = nil
+	if g := b.GetVerificationTickets(); len(g) != 1 || g[0] == nil || g[0].VerifierID != "v1" {
+		fails = append(fails, getterFail{"Block", "VerificationTickets", "GetVerificationTickets", "writing into the returned slice / ticket changed the block"})
+	}
+	pt := b.GetPrevBlockVerificationTickets()
+	pt[0].VerifierID = "changed"
+	if g := b.GetPrevBlockVerificationTickets(); len(g) != 1 || g[0].VerifierID != "p1" {
+		fails = append(fails, getterFail{"UnverifiedBlockBody", "PrevBlockVerificationTickets", "GetPrevBlockVerificationTickets", "writing into the returned ticket changed the block"})
+	}
+	ue := b.GetUniqueBlockExtensions()
+	ue["zzz"] = true
+	if len(b.GetUniqueBlockExtensions()) != 1 {
+		fails = append(fails, getterFail{"Block", "uniqueBlockExtensions", "GetUniqueBlockExtensions", "writing into the returned map changed the block"})
+	}
+	return fails
+}
 
 // ---------- slice aliasing across objects (outside the per-field lock table) ----------
 
@@ -262,8 +363,11 @@ func main() {
 		panic(err)
 	}
 	var tbl struct {
-		Table []Access `json:"table"`
-		Excl  []Excl   `json:"excl"`
+		Table   []Access `json:"table"`
+		Excl    []Excl   `json:"excl"`
+		Returns []struct {
+			Type, Field, Method, Pos string
+		} `json:"returns"`
 	}
 	if err := json.Unmarshal(data, &tbl); err != nil {
 		panic(err)
@@ -383,6 +487,30 @@ func main() {
 	rep.Case("alias:Block.VerificationTickets:concurrent", true, map[string]string{"scenario": "merge-alias"})
 	rep.Count("alias-scenarios")
 
+	// getters hand out copies: static fact from the translator + deterministic run on the real packages
+	scratch, _ := os.MkdirTemp("/var/tmp/vs", "conc-lockrace-")
+	cwd, _ := os.Getwd()
+	_ = os.Chdir(scratch) // the node code logs into ./log
+	sc.Init()
+	round.SetupEntity(nil)
+	block.SetupEntity(nil)
+	getterViol := map[string]string{}
+	for _, g := range tbl.Returns {
+		getterViol["C44:getter-alias:"+g.Type+"."+g.Field+":"+g.Method] = fmt.Sprintf("%s returns the internal %s.%s by reference at %s (bare field / slice expression of a field that is written under the object's mutex): the caller reads it without the mutex", g.Method, g.Type, g.Field, g.Pos)
+	}
+	for _, g := range getterSnapshots() {
+		k := "C44:getter-alias:" + g.typ + "." + g.field + ":" + g.method
+		if d, ok := getterViol[k]; ok {
+			getterViol[k] = d + "; observed: " + g.what
+		} else {
+			getterViol[k] = g.what
+		}
+	}
+	rep.Case("getter-snapshots", true, map[string]string{"scenario": "getter-snapshots"})
+	rep.CountN("getter-return-by-reference-facts", len(tbl.Returns))
+	_ = os.Chdir(cwd)
+	_ = os.RemoveAll(scratch)
+
 	// search step: race detector
 	wantBuild := o.Thorough() || os.Getenv("VERIF_RACE") == "1" || only != nil
 	results := map[string]raceRes{}
@@ -390,7 +518,7 @@ func main() {
 		run := sigs
 		if only != nil {
 			run = []string{strings.TrimPrefix(only.Sig, "C44:")}
-			if only.Sig == aliasSig {
+			if only.Sig == aliasSig || strings.HasPrefix(only.Sig, "C44:getter-alias:") {
 				run = nil
 			}
 		} else if !wantBuild {
@@ -405,6 +533,9 @@ func main() {
 		if only == nil || only.Sig == aliasSig {
 			run = append(run, aliasPair)
 		}
+		if only == nil || strings.HasPrefix(only.Sig, "C44:getter-alias:Round.notarizedBlocks") {
+			run = append(run, "Round.notarizedBlocks:getter0/getter0", "Round.notarizedBlocks:getter1/getter1", "Round.notarizedBlocks:getter2/getter2")
+		}
 		results = runStress(bin, run)
 		rep.Note("race detector: instrumented stress binary %s ran %d pairs", filepath.Base(bin), len(run))
 	} else {
@@ -416,7 +547,7 @@ func main() {
 		if only != nil && p.Sig != only.Sig {
 			continue
 		}
-		if only != nil && only.Sig == aliasSig {
+		if only != nil && (only.Sig == aliasSig || strings.HasPrefix(only.Sig, "C44:getter-alias:")) {
 			continue
 		}
 		d := fmt.Sprintf("unsynchronised conflicting accesses to %s.%s: %s", p.Type, p.Field, strings.Join(p.Sites, " ; "))
@@ -449,6 +580,26 @@ func main() {
 	rep.CountN("race-detector-confirmed", confirmed)
 	if r, ok := results[aliasPair]; ok && r.Race && aliasFail == "" {
 		aliasFail = "the race detector reports a data race while two goroutines merge tickets into two different blocks"
+	}
+	for _, gp := range []string{"Round.notarizedBlocks:getter0/getter0", "Round.notarizedBlocks:getter1/getter1", "Round.notarizedBlocks:getter2/getter2"} {
+		if r, ok := results[gp]; ok && r.Race {
+			k := "C44:getter-alias:Round.notarizedBlocks:GetNotarizedBlocks"
+			getterViol[k] += fmt.Sprintf(" -- Go race detector (%s): DATA RACE at %s", gp, strings.Join(r.Frames, " ; "))
+		}
+	}
+	var gks []string
+	for k := range getterViol {
+		gks = append(gks, k)
+	}
+	sort.Strings(gks)
+	for _, k := range gks {
+		if only != nil && only.Sig != k {
+			continue
+		}
+		parts := strings.SplitN(strings.TrimPrefix(k, "C44:getter-alias:"), ":", 2)
+		tf := strings.SplitN(parts[0], ".", 2)
+		rep.Violate(k, strings.TrimSpace(getterViol[k]), &pairInfo{Sig: k, Type: tf[0], Field: tf[1], MethodA: parts[1], MethodB: "getter-snapshots",
+			Stress: "cd /verif/harness && go run -race -tags verif ./cmd/racestress -pairs 'Round.notarizedBlocks:getter1/getter1'"})
 	}
 	if aliasFail != "" {
 		d := "two Block objects that merged the same ticket list share its backing array and MergeVerificationTickets appends into it: " + aliasFail
